@@ -78,6 +78,8 @@ def _unwrap_item(it: Item) -> Any:
     k = it.kind
     if k == "none":
         return None
+    if k == "boom":
+        raise LookupError("unwrap hook of this item fails")
     if k == "empty":
         return []
     if k == "tuple":
@@ -161,7 +163,7 @@ def linearise(t: Any) -> List[Any]:
     if t[0] == "L":
         return [("L", t[1])]
     if t[0] == "I":
-        if t[1] == "none":
+        if t[1] in ("none", "boom"):
             return [("X", id(t))]  # an irreducible Item is a leaf in its own right
         if t[1] == "empty":
             return []
@@ -238,7 +240,7 @@ def _to_nodes(t: Any) -> Optional[_N]:
     if t[0] == "L":
         return _N("L", ("L", t[1]))
     if t[0] in ("I", "S"):
-        if t[0] == "I" and t[1] == "none":
+        if t[0] == "I" and t[1] in ("none", "boom"):
             return _N("L", ("X", id(t)))
         n = _N("seq")
         kids = [] if (t[0] == "I" and t[1] == "empty") else (t[2] if t[0] == "I" else t[1])
@@ -336,7 +338,7 @@ def lin_depth(t: Any, d: int) -> List[List[Any]]:
     if t[0] == "L":
         return [[("L", t[1]), d]]
     kids = t[2] if t[0] == "I" else t[1]
-    if t[0] == "I" and t[1] == "none":
+    if t[0] == "I" and t[1] in ("none", "boom"):
         return [[("X", id(t)), d]]
     if t[0] == "I" and t[1] == "empty":
         return []
